@@ -643,6 +643,29 @@ func (ex *Exec) sliceInstr(fr *frame, x *ssa.Slice) *goPanic {
 	oob := func() *goPanic { return ex.rtPanic("slice bounds out of range") }
 	switch b := base.(type) {
 	case Str:
+		// s[lo:lo+n] with symbolic lo and constant n (table lookups such as
+		// miekg's escapeByte): bytes become ite chains instead of a fork per offset
+		if x.Low != nil && x.High != nil {
+			lt := ex.idx64(ex.get(fr, x.Low), x.Low.Type())
+			ht := ex.idx64(ex.get(fr, x.High), x.High.Type())
+			if d := ex.C.Bin(OpSub, ht, lt); !lt.IsConst() {
+				// the length is usually a single value even when not syntactically constant
+				n := int(int64(ex.concretizeAny(d, "string slice length")))
+				if n < 0 || n > len(b.B) {
+					return oob()
+				}
+				inb := ex.C.Cmp(OpULe, lt, ex.C.Const(64, uint64(len(b.B)-n)))
+				if !ex.branch(inb) {
+					return oob()
+				}
+				out := make([]*Term, n)
+				for k := 0; k < n; k++ {
+					out[k] = ex.strIndex(b, ex.C.Bin(OpAdd, lt, ex.C.Const(64, uint64(k))))
+				}
+				ex.set(fr, x, Str{out})
+				return nil
+			}
+		}
 		lo, ok1 := ex.optInt(fr, x.Low, 0, len(b.B))
 		if !ok1 {
 			return oob()
